@@ -24,6 +24,7 @@ import (
 	gerrors "github.com/acquirecloud/golibs/errors"
 	"github.com/acquirecloud/golibs/kvs"
 	"github.com/acquirecloud/golibs/kvs/inmem"
+	"github.com/acquirecloud/golibs/timeout"
 	"github.com/alicebob/miniredis/v2/server"
 	"github.com/anishathalye/porcupine"
 
@@ -1022,6 +1023,61 @@ func neverExpiryWait(backend string, s kvs.Storage, at time.Time) (sig, what, in
 	return "", "", ""
 }
 
+// expiryUnderBusyTimerPool (inmem, real clock): all ten workers of the process-wide timer pool (package timeout,
+// used by other parts of a process, e.g. the lease renewals) are inside callbacks that take 400 ms when a record
+// with a parked waiter expires. Waiting for a version change is no customer of that pool: the waiter must come
+// back with ErrNotExist about a millisecond after the expiry (bound 150 ms, canary-guarded), not when a pool
+// worker becomes free.
+func expiryUnderBusyTimerPool() (sig, what string, stall time.Duration, inconclusive string) {
+	var worst atomic.Int64
+	stop := make(chan struct{})
+	go func() {
+		for {
+			select {
+			case <-stop:
+				return
+			default:
+			}
+			t := time.Now()
+			time.Sleep(2 * time.Millisecond)
+			if o := int64(time.Since(t) - 2*time.Millisecond); o > worst.Load() {
+				worst.Store(o)
+			}
+		}
+	}()
+	defer func() { close(stop); stall = time.Duration(worst.Load()) }()
+	s := inmem.New()
+	bg := context.Background()
+	var running atomic.Int32
+	for i := 0; i < 10; i++ {
+		timeout.Call(func() { running.Add(1); time.Sleep(400 * time.Millisecond) }, 0)
+	}
+	t0 := time.Now()
+	for running.Load() < 10 {
+		if time.Since(t0) > 5*time.Second {
+			return "", "", 0, "the timer pool did not take ten callbacks at once"
+		}
+		time.Sleep(200 * time.Microsecond)
+	}
+	at := time.Now().Add(40 * time.Millisecond)
+	r0, err := s.Put(bg, kvs.Record{Key: "bp", Value: []byte("0"), ExpiresAt: &at})
+	if err != nil {
+		return "", "", 0, "inmem Put: " + err.Error()
+	}
+	ctx, cancel := context.WithTimeout(bg, 5*time.Second)
+	defer cancel()
+	werr := s.WaitForVersionChange(ctx, "bp", r0.Version)
+	late := time.Since(at)
+	time.Sleep(450 * time.Millisecond) // let the pool callbacks end
+	switch {
+	case !errors.Is(werr, gerrors.ErrNotExist):
+		return "inmem/wait/wrong-result-at-expiry", fmt.Sprintf("a waiter parked on a record that expired returned %v", werr), 0, ""
+	case late > 150*time.Millisecond:
+		return "inmem/wait/late-at-expiry-while-the-timer-pool-is-busy", fmt.Sprintf("a waiter parked on a record came back %v after the record's expiry (healthy: about 1 ms) while the ten workers of the timeout package were inside 400 ms callbacks of other users", late.Round(time.Millisecond)), 0, ""
+	}
+	return "", "", 0, ""
+}
+
 // pollFault (Redis): one poll of a parked waiter is answered with a server error while nothing changes and the
 // context is alive. Whatever the waiter does with the error (report it, or go on polling), it must not return nil
 // ("the key exists with a different version") nor ErrNotExist nor the context's error.
@@ -1141,7 +1197,7 @@ func TestCheck(t *testing.T) {
 		}
 		run.Finish(t)
 	})
-	run.Rule("scripted: every legal script to the depth bound over {start waiter (key1 cur/stale/unknown, key2 cur; <=3 alive), cancel waiter i, cancel+Put+newcomer without quiescence in between, start+Put without quiescence, Put k1/k2, PutMany k1 / k1+k2, CAS ok, CAS conflict, Delete k1/k2, Create, Put with an expiry, Put of an already expired record, clock +1 h (nobody touches the store)}; one waiter in three carries a context deadline 1000 virtual hours ahead, one in three a deadline 10 virtual minutes ahead (earlier than any record expiry: it gets the context's error when the clock moves); event ticklist: ListKeys runs half a millisecond after the first expiries of the hour; expiry edge (inmem, real clock): trains of 12 waiters, one key each, started within microseconds around the expiry of their records - 25 ms later (on suspicion: one second later) all have returned and the waiter table is empty (this part runs as a second pass built without the race detector, whose slow-down hides such windows); waiters on records whose expiry is centuries away (9999-12-31, now+300 y, 2300, now+100 y) stay parked and are woken by an overwrite; Redis poll fault: the 1st/2nd/5th/9th poll of a parked waiter is answered with a server error - the waiter may report it or go on, but must not return nil, ErrNotExist or the context's error from 2 initial states, in a synctest bubble; after EVERY event quiescence, then each waiter must be exactly parked / nil / ErrNotExist / ctx error per model and the waiter table must equal the parked set; free-running: 3 writers + 6 waiters + cancellers on 2 keys per round, waiter returns checked by porcupine as read-like operations, final mutation must release all; burst rounds: 4-16 waiters on the current version start together with one mutation and must all return; Redis long-park: a waiter parked 3.2 s (6.5 s thorough) must notice the change within 1 s. distinct = distinct (event kind, parked-waiter multiset, number of present keys) classes observed at quiescent points + distinct free-running rounds")
+	run.Rule("scripted: every legal script to the depth bound over {start waiter (key1 cur/stale/unknown, key2 cur; <=3 alive), cancel waiter i, cancel+Put+newcomer without quiescence in between, start+Put without quiescence, Put k1/k2, PutMany k1 / k1+k2, CAS ok, CAS conflict, Delete k1/k2, Create, Put with an expiry, Put of an already expired record, clock +1 h (nobody touches the store)}; one waiter in three carries a context deadline 1000 virtual hours ahead, one in three a deadline 10 virtual minutes ahead (earlier than any record expiry: it gets the context's error when the clock moves); event ticklist: ListKeys runs half a millisecond after the first expiries of the hour; expiry edge (inmem, real clock): trains of 12 waiters, one key each, started within microseconds around the expiry of their records - 25 ms later (on suspicion: one second later) all have returned and the waiter table is empty (this part runs as a second pass built without the race detector, whose slow-down hides such windows); waiters on records whose expiry is centuries away (9999-12-31, now+300 y, 2300, now+100 y) stay parked and are woken by an overwrite; a record with a parked waiter expires while all ten workers of the process-wide timer pool are inside 400 ms callbacks: the waiter returns within 150 ms; Redis poll fault: the 1st/2nd/5th/9th poll of a parked waiter is answered with a server error - the waiter may report it or go on, but must not return nil, ErrNotExist or the context's error from 2 initial states, in a synctest bubble; after EVERY event quiescence, then each waiter must be exactly parked / nil / ErrNotExist / ctx error per model and the waiter table must equal the parked set; free-running: 3 writers + 6 waiters + cancellers on 2 keys per round, waiter returns checked by porcupine as read-like operations, final mutation must release all; burst rounds: 4-16 waiters on the current version start together with one mutation and must all return; Redis long-park: a waiter parked 3.2 s (6.5 s thorough) must notice the change within 1 s. distinct = distinct (event kind, parked-waiter multiset, number of present keys) classes observed at quiescent points + distinct free-running rounds")
 	run.Assume("scripted part: virtual time that only moves at the explicit clock event")
 	run.Assume("free-running 'never misses' uses a 20 s watchdog against a healthy release time of microseconds (inmem) / <=100 ms (Redis polling)")
 
@@ -1244,6 +1300,30 @@ func TestCheck(t *testing.T) {
 			}(i, at, backend)
 		}
 	}
+	lpwg.Add(1)
+	go func() {
+		defer lpwg.Done()
+		for attempt := 1; ; attempt++ {
+			sig, what, stall, inc := expiryUnderBusyTimerPool()
+			if inc != "" {
+				run.Inconclusive(inc)
+				return
+			}
+			if sig == "inmem/wait/late-at-expiry-while-the-timer-pool-is-busy" && stall > 40*time.Millisecond {
+				if attempt < 3 {
+					continue
+				}
+				run.Inconclusive(fmt.Sprintf("%s (canary stall %v)", what, stall))
+				return
+			}
+			run.Eval(1)
+			run.Add("expiry_under_busy_timer_pool_scenarios", 1)
+			if sig != "" {
+				run.Violation(sig, what, map[string]any{"scenario": "expiry-under-busy-timer-pool", "backend": "inmem"})
+			}
+			return
+		}
+	}()
 	for _, nth := range []int64{1, 2, 5, 9} {
 		lpwg.Add(1)
 		go func(nth int64) {
